@@ -652,6 +652,22 @@ macro_rules! do_step {
                 let rm = Arc::new(parking_lot::RwLock::new(DefaultRoleManager::new(f[1].parse().unwrap())));
                 res_unit($e.set_role_manager(rm))
             }
+            "SRP" => {
+                // a replacement manager that already holds links of its own (filled by hand / taken over from another enforcer);
+                // the generators emit this step only with auto-build on, where set_role_manager rebuilds the links from the
+                // stored rules, so what the incoming manager held must not survive
+                use casbin::RoleManager as _;
+                let mut m = DefaultRoleManager::new(f[1].parse().unwrap());
+                for l in dec_rules(f[2]) {
+                    match l.len() {
+                        2 => m.add_link(&l[0], &l[1], None),
+                        3 => m.add_link(&l[0], &l[1], Some(&l[2])),
+                        _ => panic!("SRP link arity"),
+                    }
+                }
+                let rm = Arc::new(parking_lot::RwLock::new(m));
+                res_unit($e.set_role_manager(rm))
+            }
             "SE" => {
                 $e.set_effector(Box::new(casbin::DefaultEffector));
                 "1".to_string()
@@ -789,6 +805,10 @@ fn run_history<E: CoreApi + MgmtApi + RbacApi>(e: &mut E, steps: &str, cx: &mut 
                 "SM" | "SMR" => cx.cur_spec = f[1].to_string(),
                 "SA" => cx.cur_adapter = f[1].to_string(),
                 "SR" => cx.rm_max = f[1].parse().unwrap(),
+                "SRP" => {
+                    assert!(cx.flags[2], "SRP step with auto-build off: the generator must not emit it there");
+                    cx.rm_max = f[1].parse().unwrap()
+                }
                 "AF" => cx.ufuns.push((dec(f[1]), f[2].to_string())),
                 "EE" => cx.flags[0] = f[1] == "1",
                 "ES" => cx.flags[1] = f[1] == "1",
